@@ -87,6 +87,14 @@ func sortedKeys(m map[felt.Felt]felt.Felt) []felt.Felt {
 	return out
 }
 
+func hexesOf(fs []felt.Felt) []string {
+	out := make([]string, len(fs))
+	for i := range fs {
+		out[i] = fs[i].String()
+	}
+	return out
+}
+
 func renderKV(m map[felt.Felt]felt.Felt) string {
 	s := ""
 	for _, k := range sortedKeys(m) {
@@ -328,6 +336,7 @@ func toTrie2(ns []pnode) *trie2.ProofNodeSet {
 type impl interface {
 	name() string
 	prove(k *felt.Felt) ([]pnode, error)
+	proveMany(ks []felt.Felt) ([]pnode, error)                // all keys proven into ONE node set (what the RPC and GetRangeProof do)
 	verify(root, k *felt.Felt, ns []pnode) (felt.Felt, error) // only meaningful for height 251
 	rangeProof(l, r *felt.Felt) ([]pnode, error)
 	verifyRange(root, first *felt.Felt, keys, values []*felt.Felt, ns []pnode, nilProof bool) (bool, error)
@@ -380,6 +389,16 @@ func (l *legacyImpl) prove(k *felt.Felt) ([]pnode, error) {
 	p := trie.NewProofNodeSet()
 	if err := l.tr.Prove(k, p); err != nil {
 		return nil, err
+	}
+	return fromLegacy(p)
+}
+
+func (l *legacyImpl) proveMany(ks []felt.Felt) ([]pnode, error) {
+	p := trie.NewProofNodeSet()
+	for i := range ks {
+		if err := l.tr.Prove(&ks[i], p); err != nil {
+			return nil, err
+		}
 	}
 	return fromLegacy(p)
 }
@@ -462,6 +481,16 @@ func (t *trie2Impl) prove(k *felt.Felt) ([]pnode, error) {
 	p := trie2.NewProofNodeSet()
 	if err := t.tr.Prove(k, p); err != nil {
 		return nil, err
+	}
+	return fromTrie2(p)
+}
+
+func (t *trie2Impl) proveMany(ks []felt.Felt) ([]pnode, error) {
+	p := trie2.NewProofNodeSet()
+	for i := range ks {
+		if err := t.tr.Prove(&ks[i], p); err != nil {
+			return nil, err
+		}
 	}
 	return fromTrie2(p)
 }
@@ -584,9 +613,24 @@ func queryKey(rt *rapid.T, height int, pool []felt.Felt, present []felt.Felt) (f
 	}
 }
 
-// drawModel draws a key/value set over pool and an insertion order.
-func drawModel(rt *rapid.T, pool []felt.Felt, maxKeys int) (map[felt.Felt]felt.Felt, []felt.Felt) {
+// tinyValues: a value pool with deliberate repeats (equal values are what makes two sub-tries identical).
+var tinyValues = []felt.Felt{gen.F(5), gen.F(7), gen.F(9)}
+
+// drawModel draws a key/value set over pool and an insertion order. Values come from the biased felt generator or,
+// in half of the cases, from a 3-element pool. In ~40% of the cases a "copied neighbourhood" is added: 2 or 4
+// adjacent keys k..k+size-1 with drawn values and the SAME values at k'..k'+size-1, where k' differs from k in one or
+// two drawn bits above the neighbourhood, so that the trie holds two inner sub-tries with identical content (one
+// Binary proof node hash) at different positions, usually under different edges. The extra keys are returned so
+// that callers can add them to their query pool.
+func drawModel(rt *rapid.T, pool []felt.Felt, maxKeys, height int) (map[felt.Felt]felt.Felt, []felt.Felt, []felt.Felt) {
 	n := rapid.IntRange(0, min(maxKeys, len(pool))).Draw(rt, "nkeys")
+	tiny := rapid.Bool().Draw(rt, "tinyValues")
+	val := func(label string) felt.Felt {
+		if tiny {
+			return rapid.SampledFrom(tinyValues).Draw(rt, label)
+		}
+		return gen.NonZeroFelt().Draw(rt, label)
+	}
 	model := map[felt.Felt]felt.Felt{}
 	var order []felt.Felt
 	for len(order) < n {
@@ -600,10 +644,110 @@ func drawModel(rt *rapid.T, pool []felt.Felt, maxKeys int) (map[felt.Felt]felt.F
 				}
 			}
 		}
-		model[k] = gen.NonZeroFelt().Draw(rt, "mval")
+		model[k] = val("mval")
 		order = append(order, k)
 	}
-	return model, order
+	var extra []felt.Felt
+	if rapid.IntRange(0, 4).Draw(rt, "copiedNeighbourhood") < 2 {
+		lg := rapid.IntRange(1, min(2, height-1)).Draw(rt, "nbLog")
+		size := 1 << lg
+		base := felt2big(ptrF(rapid.SampledFrom(pool).Draw(rt, "nbBase")))
+		base.Rsh(base, uint(lg)).Lsh(base, uint(lg))
+		other := new(big.Int).Set(base)
+		// one flipped bit gives two sub-tries whose edges are equal as well (same remaining path); two flipped bits make the
+		// edges differ in the lower of the two positions
+		nflip := rapid.SampledFrom([]int{1, 2, 2, 2}).Draw(rt, "nbFlips")
+		flipped := map[int]bool{}
+		for i := 0; i < nflip; i++ {
+			var bit int
+			if rapid.Bool().Draw(rt, "nbNear") {
+				bit = rapid.IntRange(lg, min(lg+4, height-1)).Draw(rt, "nbBitNear")
+			} else {
+				bit = rapid.IntRange(lg, height-1).Draw(rt, "nbBit")
+			}
+			if !flipped[bit] {
+				flipped[bit] = true
+				other.SetBit(other, bit, other.Bit(bit)^1)
+			}
+		}
+		if other.Cmp(base) != 0 {
+			vals := make([]felt.Felt, size)
+			for i := range vals {
+				vals[i] = val("nbVal")
+			}
+			for _, b := range []*big.Int{base, other} {
+				for i := 0; i < size; i++ {
+					k := big2felt(new(big.Int).Add(b, big.NewInt(int64(i))))
+					if _, ok := model[k]; !ok {
+						order = append(order, k)
+					}
+					model[k] = vals[i]
+					extra = append(extra, k)
+				}
+			}
+		}
+	}
+	return model, order, extra
+}
+
+// dupSubtries derives from the key/value set alone whether the trie holds two inner (binary) sub-tries with identical
+// content at different positions, and whether two such sub-tries hang off different edges (edge length or path bits
+// differ; "no edge" counts as an edge of length 0).
+func dupSubtries(height int, model map[felt.Felt]felt.Felt) (dup, diffEdge bool) {
+	type entry struct {
+		k *big.Int
+		v felt.Felt
+	}
+	var es []entry
+	for _, k := range sortedKeys(model) {
+		es = append(es, entry{felt2big(&k), model[k]})
+	}
+	seen := map[string]map[string]bool{}
+	var scan func(es []entry, length int)
+	scan = func(es []entry, length int) {
+		if len(es) <= 1 || length == 0 {
+			return
+		}
+		first, last := es[0].k, es[len(es)-1].k
+		l := 0
+		for l < length && first.Bit(length-1-l) == last.Bit(length-1-l) {
+			l++
+		}
+		rem := length - l
+		mask := new(big.Int).Sub(new(big.Int).Lsh(big.NewInt(1), uint(rem)), big.NewInt(1))
+		sig := fmt.Sprintf("%d|", rem)
+		for _, e := range es {
+			sig += new(big.Int).And(e.k, mask).Text(16) + "=" + e.v.String() + ","
+		}
+		pathBits := new(big.Int).Rsh(first, uint(rem))
+		pathBits.And(pathBits, new(big.Int).Sub(new(big.Int).Lsh(big.NewInt(1), uint(l)), big.NewInt(1)))
+		edge := fmt.Sprintf("%d:%s", l, pathBits.Text(16))
+		if seen[sig] == nil {
+			seen[sig] = map[string]bool{}
+		} else {
+			dup = true
+		}
+		seen[sig][edge] = true
+		if len(seen[sig]) > 1 {
+			diffEdge = true
+		}
+		i := sort.Search(len(es), func(i int) bool { return es[i].k.Bit(rem-1) == 1 })
+		scan(es[:i], rem-1)
+		scan(es[i:], rem-1)
+	}
+	scan(es, height)
+	return dup, diffEdge
+}
+
+func labelDup(c *stats.Case, height int, model map[felt.Felt]felt.Felt) (dup, diffEdge bool) {
+	dup, diffEdge = dupSubtries(height, model)
+	if dup {
+		c.Label("duplicate-subtrie")
+	}
+	if diffEdge {
+		c.Label("duplicate-subtrie-under-different-edges")
+	}
+	return dup, diffEdge
 }
 
 // ---------------------------------------------------------------------------------------------
@@ -893,7 +1037,9 @@ func TestPropTrieProofs(t *testing.T) {
 			height := rapid.SampledFrom([]int{251, 251, 251, 251, 8, 3}).Draw(rt, "height")
 			posei := rapid.Bool().Draw(rt, "poseidon")
 			pool, poolKind := keyPool(rt, height)
-			model, order := drawModel(rt, pool, 10)
+			model, order, nbKeys := drawModel(rt, pool, 10, height)
+			pool = append(pool, nbKeys...)
+			_, dupDiffEdge := labelDup(c, height, model)
 			c.Fp("h%d p%v %s", height, posei, renderKV(model))
 			c.Labelf("height-%d", height)
 			c.Label("pool-" + poolKind)
@@ -922,9 +1068,11 @@ func TestPropTrieProofs(t *testing.T) {
 			}
 			fimpls := []impl{newLegacy(height, posei, fmodel, forder, false), newTrie2(height, posei, fmodel, forder, "hashed")}
 
+			var queried []felt.Felt
 			nq := rapid.IntRange(1, 4).Draw(rt, "nqueries")
 			for qi := 0; qi < nq; qi++ {
 				q, qkind := queryKey(rt, height, pool, present)
+				queried = append(queried, q)
 				want := model[q]
 				c.Fp("q %s", q.String())
 				c.Label("q-" + qkind)
@@ -1044,6 +1192,61 @@ func TestPropTrieProofs(t *testing.T) {
 							c.Violation("forged-proof-accepted", "%s VerifyProof(root %s, key %s, corrupted proof [%s]) = %s, nil but the trie holds %s\nhonest key %s\nhonest proof  %v\ncorrupt proof %v\nmodel %s",
 								im.name(), root.String(), tr.key.String(), tr.desc, v.String(), mv.String(), q.String(), honest, tr.nodes, renderKV(model))
 						}
+					}
+				}
+			}
+			// ---- several keys proven into ONE node set (as starknet_getStorageProof and GetRangeProof do): every key must still
+			// verify against the shared set, with VerifyProof and with the independent walker
+			shared := append([]felt.Felt{}, queried...)
+			nmore := rapid.IntRange(1, 4).Draw(rt, "nshared")
+			for i := 0; i < nmore; i++ {
+				switch {
+				case len(nbKeys) > 0 && rapid.Bool().Draw(rt, "sharedNb"):
+					shared = append(shared, rapid.SampledFrom(nbKeys).Draw(rt, "sharedNbKey"))
+				default:
+					q, _ := queryKey(rt, height, pool, present)
+					shared = append(shared, q)
+				}
+			}
+			shared = rapid.Permutation(shared).Draw(rt, "sharedOrder")
+			c.Fp("shared %v", hexesOf(shared))
+			c.Labelf("shared-set-keys-%d", min(len(shared), 6))
+			if dupDiffEdge {
+				c.Label("shared-set-over-duplicate-subtries")
+			}
+			for _, im := range impls {
+				var set []pnode
+				var err error
+				if msg, p := guarded(func() { set, err = im.proveMany(shared) }); p || err != nil {
+					c.Violation("prove-error", "%s Prove of %v into one set: %v %s (model %s)", im.name(), hexesOf(shared), err, msg, renderKV(model))
+				}
+				nm := nodeMap(set)
+				for _, n := range set {
+					if hv := n.hash(refHash(posei)); !hv.Equal(&n.key) {
+						c.Violation("proof-node-misfiled", "%s shared set: node %v is stored under %s but hashes to %s", im.name(), n, n.key.String(), hv.String())
+					}
+				}
+				for _, k := range shared {
+					want := model[k]
+					wr, werr := walk(root, felt2big(&k), height, nm, refHash(posei))
+					if werr != nil {
+						c.Violation("shared-proof-incomplete", "%s: keys %v were proven into ONE node set; it does not lead from the reference root %s to key %s: %v\nset %v\nmodel %s",
+							im.name(), hexesOf(shared), root.String(), k.String(), werr, set, renderKV(model))
+					}
+					if !wr.value.Equal(&want) || wr.absent != want.IsZero() {
+						c.Violation("shared-proof-wrong-value", "%s shared set %v: independent walk for %s gives %s absent=%v, model %s", im.name(), hexesOf(shared), k.String(), wr.value.String(), wr.absent, want.String())
+					}
+					if height != 251 || len(model) == 0 {
+						continue
+					}
+					var got felt.Felt
+					var verr error
+					if msg, p := guarded(func() { got, verr = im.verify(&root, &k, set) }); p {
+						c.Violation("verify-panic", "%s VerifyProof(shared set, %s) panicked: %s", im.name(), k.String(), msg)
+					}
+					if verr != nil || !got.Equal(&want) {
+						c.Violation("shared-completeness", "%s VerifyProof(refroot, %s, set proving %v) = %s, %v; model %s\nset %v\nmodel %s",
+							im.name(), k.String(), hexesOf(shared), got.String(), verr, want.String(), set, renderKV(model))
 					}
 				}
 			}
